@@ -279,6 +279,7 @@ func init() {
 		wireBeColumn(wc, r, "C15")
 		wireEveryMatchField(w, wc, r, "C15", []string{"lua"})
 		wireEmitOnceKeys(w, wc, r, "C15")
+		c15HelpersDefinedFirst(w, wc, r)
 		wireTemplateTaint(w, wc, r, "C15", []string{"lua"})
 		wireBracketBalance(w, wc, r, "C15", map[string]bool{"code": true, "test": true, "only-lua": true})
 		wireLuaSizes(wc, r)
